@@ -42,7 +42,7 @@ class Step:
         self.viol = []
         self.hist = self.idx = None
 
-TEXT_ALPHA = 'aaabbbcc  \t\n-:;0123xyzABsk\'+' + 'éß' + '\u0130\u017f\u03a3\u212a'   # İ ſ Σ K(elvin): case folding that changes length / differs from lower()
+TEXT_ALPHA = 'aaabbbcc  \t\n-:;0123xyzABsk\'+|\x7f' + 'éß' + '\u0130\u017f\u03a3\u212a' + '\u65e5'   # İ ſ Σ K(elvin), a wide character: case folding that changes length / differs from lower()
 
 MEMBERS = ['BOLD', 'FAINT', 'NO_BOLD_FAINT', 'RED', 'BLUE', 'FG_DEFAULT', 'UNDERLINE', 'DOUBLE_UNDERLINE',
            'NO_UNDERLINE', 'BG_GREEN', 'BG_DEFAULT', 'ITALIC', 'DEFAULT_FONT', 'ALT_FONT_2', 'UL_RED', 'ORANGE',
@@ -66,7 +66,9 @@ def good_sargs(rng):
                                    ('obj', ['1', '3H']), ('obj', [4, '2J']), ('obj', (1, 31)), ('obj', ['38', '5', '1']), ('obj', 31),
                                    ('list', [('int', 38), ('str', '5;208')]), ('list', [('str', '38;5'), ('int', 208)]),
                                    ('list', [('str', '48;2;1'), ('str', '2;3')]), ('list', [('str', 'bold;58'), ('int', 5), ('int', 9)]),
-                                   ('tuple', [('int', 4), ('str', '58;2;1;2'), ('int', 3)]), ('list', [('str', '38'), ('str', '5'), ('str', '1')])])
+                                   ('tuple', [('int', 4), ('str', '58;2;1;2'), ('int', 3)]), ('list', [('str', '38'), ('str', '5'), ('str', '1')]),
+                                   ('list', [('int', 1), ('member', 'BLUE'), ('int', 31)]), ('str', '1;blue;31'), ('list', [('int', 32), ('obj', '1'), ('int', 31), ('int', 0)]),
+                                   ('list', [('int', 0), ('int', 31)]), ('tuple', [('int', 38), ('int', 2), ('int', 255), ('int', 0), ('int', 0)])])
     if k == 12: return rng.choice([('obj', '3H'), ('str', '[1m'), ('obj', 'x'), ('str', '[2J'), ('obj', '5~'), ('str', '[38;5;'),
                                    ('list', [('obj', '1A'), ('obj', '2B')]), ('list', [('str', '[x'), ('str', '[y'), ('member', 'BOLD')])])
     if k == 7: return ('list', [good_sargs(rng) for _ in range(rng.randrange(0, 3))])
@@ -543,12 +545,15 @@ class Runner:
         inp = self._inp = P.line('remove', P.e_astr(x, ids), P.e_optsarg(a), P.e_optint(st), P.e_optint(en))
         pre = O.Snap(x)
         arg = None if a is None else P.build_sarg(a, self.mod)
+        arg_before = [repr(q) for q in arg] if (a is not None and a[0] == 'list') else None
         def run():
             x.remove_formatting(arg, 0 if st is None else st, en) if st is not None else x.remove_formatting(arg, end=en)
             return x
         out, fv = self.framed([x], lambda: self.call(run))
         self.count('remove', out)
         viol = self.c09(out, 'remove', repr((a, st, en))) + fv + self.after_error(x, pre, out)
+        if arg_before is not None and not any(q[0] == 'selfref' for q in a[1]) and [repr(q) for q in arg] != arg_before:
+            viol.append(('C08', 'arg_unchanged', 'settings list modified by remove_formatting: %s -> %r' % (arg_before, arg)))
         if out[0] == 'ok':
             viol += self.oracle_remove(pre, x, st, en, a, arg)
             viol += self.health(x, 'remove')
@@ -899,12 +904,12 @@ class Runner:
         fill = rng.choice(['', '', ' ', ':', '+', '-', '0', '7', '*', '<', 'é'])
         sign = rng.choice(['', '', '+', '-'])
         al = rng.choice(['<', '>', '^', ''])
-        width = rng.choice(['', '0', '3', '7', '12', '05'])
+        width = rng.choice(['', '0', '3', '7', '12', '05', '010', '007', '00'])
         if not al:
             fill = sign = ''
         spec = fill + sign + al + width
         if rng.random() < 0.6:
-            spec += ':' + rng.choice(['red', 'bold;blue', '', 'bg_rgb(1,2,3)', '[1;2', 'nope', '1;31', ';'])
+            spec += ':' + rng.choice(['red', 'bold;blue', '', 'bg_rgb(1,2,3)', '[1;2', 'nope', '1;31', ';', '[4;red', '[01;031', 'red;[1', '[', '[;', 'bold;;', '1;blue;31'])
         return spec
 
     def op_tostr(self):
@@ -1012,9 +1017,12 @@ class Runner:
         ids = P.InIds()
         inp = self._inp = P.line('find', P.e_astr(x, ids), P.e_sarg(a), P.e_optint(st), P.e_optint(en), P.e_bool(rev))
         arg = P.build_sarg(a, self.mod)
+        arg_before = [repr(q) for q in arg] if a[0] == 'list' else None
         out, fv = self.framed([], lambda: self.call(lambda: x.find_settings(arg, 0 if st is None else st, en, rev)))
         self.count('find', out)
         viol = self.c09(out, 'find', repr((a, st, en, rev))) + fv
+        if arg_before is not None and not any(q[0] == 'selfref' for q in a[1]) and [repr(q) for q in arg] != arg_before:
+            viol.append(('C08', 'arg_unchanged', 'settings list modified by find_settings: %s -> %r' % (arg_before, arg)))
         if out[0] == 'ok':
             try:
                 want = [str(q) for q in self.mod.ansi_string._AnsiSettingPoint._scrub_ansi_settings(arg)]
@@ -1448,7 +1456,7 @@ class Runner:
         if regex:
             pat = rng.choice(['a+', 'a*', '[ab]', 'b?', '(a)(b)?', '\\s', '.', 'a|b', '^', '$', 'x*', '(?:ab)+', '^a', '^.', '.$', 'b$', '^\\w+', '\\w$', '^[ab]|c$'])
         else:
-            pat = rng.choice([self.pattern(x), self.pattern(x), t, t[:3], t[-3:], '.', 'a.', '(', 'a+', '[', '\\', 'A', 'B', '*', '++', '(a)', '[1+1]'])
+            pat = rng.choice([self.pattern(x), self.pattern(x), t, t[:3], t[-3:], '.', 'a.', '(', 'a+', '[', '\\', 'A', 'B', '*', '++', '(a)', '[1+1]', '|', 'a|b', ' | ', '^', '$', '{', '}', 'a{1}', '?'])
         mc = rng.random() < 0.4
         if not regex and rng.random() < 0.3:
             pat = rng.choice([pat.upper(), pat.lower(), pat.swapcase(), 's', 'S', 'k', 'i', '\u03c3', '\u03c2'])
@@ -1464,7 +1472,12 @@ class Runner:
             else: fmt = [good_sargs(rng)]
         else:
             fmt = [good_sargs(rng) for _ in range(rng.choice([1, 1, 2, 0]))]
-            if rng.random() < 0.05: fmt = [bad_sargs(rng)]
+            r = rng.random()
+            if r < 0.05: fmt = [bad_sargs(rng)]
+            elif r < 0.10: fmt = [good_sargs(rng), bad_sargs(rng)]        # a valid specifier before an invalid one: all or nothing
+            elif r < 0.13: fmt = [('list', [('int', 1), ('int', 31)]), ('list', [('int', 38), ('int', 5), ('int', 214)])]
+        if un and rng.random() < 0.1:
+            fmt = [('list', [('int', 1), ('int', 31)])]
         try:
             spans = [(m.start(), m.end()) for m in _re.finditer(pat if regex else _re.escape(pat), t, 0 if mc else _re.IGNORECASE)]
         except _re.error:
@@ -1486,9 +1499,13 @@ class Runner:
             if un: x.unformat_matching(pat, *args, regex=regex, match_case=mc, count=count)
             else: x.format_matching(pat, *args, regex=regex, match_case=mc, count=count)
             return x
+        args_before = [[repr(q) for q in a_] if isinstance(a_, list) else None for a_ in args]
         out, fv = self.framed([x], lambda: self.call(run))
         self.count('unfmatch' if un else 'fmatch', out)
-        viol = self.c09(out, 'match', repr((pat, regex, mc, count))) + fv
+        viol = self.c09(out, 'match', repr((pat, regex, mc, count))) + fv + self.after_error(x, pre, out)
+        for a_, b_ in zip(args, args_before):
+            if b_ is not None and [repr(q) for q in a_] != b_:
+                viol.append(('C08', 'arg_unchanged', 'settings list modified by %s: %s -> %r' % ('unformat_matching' if un else 'format_matching', b_, a_)))
         # the property's right-hand side, executed on a copy
         def rhs():
             for (s_, e_) in spans:
@@ -1516,10 +1533,50 @@ class Runner:
         self.emit('unfmatch' if un else 'fmatch', inp, self.outcome_line(out, P.ok_astr),
                   '%s(%r,%r,regex=%r,match_case=%r,count=%r) on %r' % ('unformat_matching' if un else 'format_matching', pat, fmt, regex, mc, count, t), viol)
 
+    # ----------------------------------------------------------------- long values (indices beyond 256)
+    def op_long(self):
+        """a value longer than 256 characters with change points beyond index 256, then one range operation
+        whose bounds are computed integers at those points (CPython caches only small ints: `is` on an
+        index, a dict keyed by position reused across objects, … show up only there)"""
+        rng = self.rng
+        n0 = rng.randint(257, 290)
+        x = self.A('a' * n0 + self.text(4, 8))
+        n = len(x._s)
+        pts = sorted(set([rng.randint(256, n - 1), rng.randint(257, n), n0 + 1, n - 2]))
+        x.apply_formatting(rng.choice(['red', 'bold', '[1;31']), 0, pts[0] + 0)
+        x.apply_formatting(rng.choice(['blue', 'italic', 4]), pts[0] + 0, pts[-1] + 0)
+        if rng.random() < 0.5:
+            x.apply_formatting('underline', pts[1] + 0, None)
+        a = rng.choice([None, 0, 250 + 5, pts[0] + 0])
+        b = rng.choice(pts) + 0
+        k = rng.randrange(5)
+        if k == 0:
+            y0 = len(self.steps)
+            self.do_slice(x, a, b, rng.choice(['getitem', 'clip']), False)
+            r = self.call(lambda: x[a:b])
+            if r[0] == 'ok':
+                self.do_concat(r[1], ('s', 'xy'), False, None, False)
+        elif k == 1:
+            self.do_apply(x, good_sargs(rng), a, b, rng.random() < 0.5)
+        elif k == 2:
+            self.do_remove(x, rng.choice([None, ('str', 'blue'), ('str', 'red')]), a, b)
+        elif k == 3:
+            self.do_find(x, rng.choice([('str', 'blue'), ('str', 'red'), ('str', 'italic')]), a, None, rng.random() < 0.5)
+        else:
+            self.do_tostr(x, None, True, False, True)
+
     # ----------------------------------------------------------------- AnsiStr twin (C13)
     def op_twin(self):
         rng = self.rng
         x = self.pick()
+        if rng.random() < 0.2:
+            # a value only the twin sees: blanks that `str` strips/splits on but the library's own set does not
+            # contain (no model step is involved here: the Lean model knows ASCII blanks only)
+            t = ''.join(rng.choice('ab \xa0\x85\u2003\x1c\t\n\u3000c') for _ in range(rng.randint(1, 9)))
+            x = self.A(t)
+            if len(t) > 1:
+                x.apply_formatting(rng.choice(['red', 'bold']), rng.randrange(len(t)), None)
+                x.apply_formatting('blue', 0, rng.randint(1, len(t)))
         viol = []
         try:
             a = self.S(x)
@@ -1690,7 +1747,7 @@ class Runner:
     # ----------------------------------------------------------------- histories
     OPS = ['new', 'copy', 'apply', 'remove', 'clear', 'slice', 'index', 'iter', 'concat', 'join', 'pad', 'tostr',
            'find', 'settingsat', 'simplify', 'roundtrip', 'strip', 'affix', 'split', 'replace', 'case', 'assign',
-           'expandtabs', 'query', 'match', 'twin']
+           'expandtabs', 'query', 'match', 'twin', 'long']
     OP_PROP = {'new': 'C02', 'apply': 'C06', 'remove': 'C07', 'slice': 'C04', 'index': 'C04', 'iter': 'C04',
                'concat': 'C05', 'join': 'C05', 'pad': 'C12', 'simplify': 'C03', 'roundtrip': 'C03', 'strip': 'C11',
                'affix': 'C11', 'split': 'C11', 'replace': 'C11', 'assign': 'C11', 'expandtabs': 'C11', 'match': 'C16',
@@ -1698,7 +1755,7 @@ class Runner:
     BASE_W = {'new': 3, 'copy': 2, 'apply': 10, 'remove': 7, 'clear': 1, 'slice': 7, 'index': 2, 'iter': 1,
               'concat': 8, 'join': 2, 'pad': 6, 'tostr': 8, 'find': 4, 'settingsat': 2, 'simplify': 3,
               'roundtrip': 3, 'strip': 3, 'affix': 2, 'split': 4, 'replace': 4, 'case': 2, 'assign': 2,
-              'expandtabs': 1, 'query': 2, 'match': 3, 'twin': 3}
+              'expandtabs': 1, 'query': 2, 'match': 3, 'twin': 3, 'long': 0.4}
 
     def run_op(self, nm):
         """run one generated operation; a harness failure while observing a value is a finding
